@@ -164,7 +164,7 @@ CHECKS["C04"] = (
 CHECKS["C15"] = (
     "model_checking",
     "explicit-state BFS over the real pipeline builder x exhaustive menu of single renamings (columns and tables) into internal names x small inputs x three executors; metamorphic oracle (renaming commutes with evaluation)",
-    "Every state at depth <= 1 over the core menu (thorough: + depth <= 2 over a one-entry-per-operator slice) is rebuilt under every single renaming of one of its input or step-introduced columns to each of 21 names the executors / SQL generator use internally (scratch columns, CTE and alias names, SQL keywords, a neutral control) and to the join-suffix names derived from every other column, and of one of its tables to 14 names; original and renamed pipelines run on Pandas, Polars and SQLite on the empty table, every single row and the whole row alphabet (thorough: all multisets of <= 2 rows); the renamed result must be the renamed original result, and a renamed pipeline may not be rejected or fail where the original ran.",
+    "Every state at depth <= 1 over the core menu (thorough: + depth <= 2 over a one-entry-per-operator slice) is rebuilt under every single renaming of one of its input or step-introduced columns to each of 21 names the executors / SQL generator use internally (scratch columns, CTE and alias names, SQL keywords, a neutral control) and to the join-suffix names derived from every other column, and of one of its tables to 14 names; original and renamed pipelines run on Pandas, Polars and SQLite on the empty table, every single row and the whole row alphabet; the renamed result must be the renamed original result, and a renamed pipeline may not be rejected or fail where the original ran.",
     "Listed findings (one per family of capturing scratch names) are matched narrowly on (backend, exact name renamed to, step kinds present).",
     "DESIGN.md 3/C15",
 )
